@@ -61,9 +61,28 @@ func (a *AvahiProvider) Start(autoReconnect bool, cb api.MdnsResolveCB) bool {
 	a.mux.Lock()
 	defer a.mux.Unlock()
 
+	a.manualShutdown = false
+
+	return a.start(autoReconnect, cb)
+}
+
+// start again after the avahi daemon disconnected,
+// but not if the provider was shut down manually in the meantime
+func (a *AvahiProvider) restart(cb api.MdnsResolveCB) bool {
+	a.mux.Lock()
+	defer a.mux.Unlock()
+
+	if a.manualShutdown {
+		return false
+	}
+
+	return a.start(true, cb)
+}
+
+// needs to be invoked with a.mux being locked
+func (a *AvahiProvider) start(autoReconnect bool, cb api.MdnsResolveCB) bool {
 	a.autoReconnect = autoReconnect
 	a.resolveCB = cb
-	a.manualShutdown = false
 
 	err := a.avServer.Setup(a.avahiCallback)
 	if err != nil {
@@ -243,7 +262,7 @@ func (a *AvahiProvider) attemptReconnect(cb api.MdnsResolveCB) {
 
 		<-time.After(time.Second)
 
-		if !a.Start(true, cb) {
+		if !a.restart(cb) {
 			continue
 		}
 
